@@ -5,7 +5,7 @@ cd /repo || exit 2
 git diff --quiet || { echo "repo dirty, refusing"; exit 2; }
 git apply "$P" || { echo "patch does not apply"; exit 2; }
 cd /verif
-VERIF_BUDGET_S=$B ./check $PROP > /tmp/mutant.$$.log 2>&1; rc=$?
+VERIF_EVIDENCE_DIR=/tmp/mutant-evidence VERIF_BUDGET_S=$B ./check $PROP > /tmp/mutant.$$.log 2>&1; rc=$?
 git -C /repo checkout -- .
 echo "rc=$rc"; grep -a -E "^VIOLATION|^  kind=|^OK|harness|KNOWN" /tmp/mutant.$$.log | cut -c1-400
 rm -f /tmp/mutant.$$.log
